@@ -29,6 +29,9 @@ def in_scope(fi: FuncInfo, modules: Iterable[str], functions: Optional[Iterable[
     return fi.module in set(modules)
 
 
+from ..guards import strip_locals as _strip_locals
+
+
 def eo1(prog: Program, res: Result, select: Callable[[FuncInfo], bool]) -> None:
     """Explicit-order discipline on reshape-family sites."""
     f = facts(prog)
@@ -59,7 +62,7 @@ def eo1(prog: Program, res: Result, select: Callable[[FuncInfo], bool]) -> None:
             else:
                 res.undecided("EO-1", s.fi.short, desc, where, f"order expression {ast.unparse(s.order_expr)} not resolvable")
         else:
-            ex = [x for x in f["exceptions"] if x["function"] == s.fi.short and (x["key"] is None or x["key"] == s.key)]
+            ex = [x for x in f["exceptions"] if x["function"] == s.fi.short and (x["key"] is None or _strip_locals(x["key"]) == _strip_locals(s.key))]
             if ex:
                 res.ok("EO-1", s.fi.short, desc, where, "reviewed order-irrelevant site: " + ex[0]["reason"], nontrivial=False)
             else:
